@@ -147,6 +147,18 @@ class Check(core.PropertyCheck):
                 return ["get", n, [("ip:" + ".".join(n),)]]
             n = ("m%d" % i, "example", "com")
             return ["get", n, [n, ("alt%d" % i, "example", "org"), ("ip:10.9.%d.%d" % (i // 250, i % 250 + 1),)]]
+        # custom certificates that carry names of their own (registered through the certificate's CN/SANs), then requests
+        # for sibling and parent-domain names: only the exact names and their asterisk forms may be served the custom one
+        for i in range(12 if ctx.quick else 120):
+            base = (rng.choice(["www", "api", "m"]), rng.choice(["example", "test"]), rng.choice(["com", "org"]))
+            sib = (rng.choice(["mail", "cdn", "x"]),) + base[1:]
+            other = ("host", "other", base[2])
+            certnames = [base] + ([("alt",) + base[1:]] if rng.random() < 0.4 else [])
+            extra = [("*",) + base[1:]] if rng.random() < 0.3 else []
+            ops = [["add", certnames + extra, certnames]]
+            for n in rng.sample([base, sib, other, ("deep",) + base, base[1:]], 4):
+                ops.append(["get", n, [n]])
+            yield core.Scenario({"cap": 3, "ops": ops}, source="random")
         for shape in ("long", "nosan", "ip", "cn_ip", "many"):
             for cap in ((2, 3) if ctx.quick else (1, 2, 3, 5, 8)):
                 ops = [shaped(i, shape) for i in range(cap + 4)]
@@ -172,10 +184,13 @@ class Check(core.PropertyCheck):
         for op in sc["ops"]:
             if op[0] == "add":
                 names = [tuple(n) for n in op[1]]
-                # a custom certificate: made by the harness, registered only under the given names
-                cert = certs.dummy_cert(store.default_privatekey, store.default_ca._cert, None, [], None, None)
+                certnames = [tuple(n) for n in (op[2] if len(op) > 2 else [])]
+                # a custom certificate made by the harness.  add_cert registers it under the certificate's own CN and
+                # SANs (certnames) and under the explicitly given names: `names` lists all of them.
+                cert = certs.dummy_cert(store.default_privatekey, store.default_ca._cert,
+                                        _name_str(certnames[0]) if certnames else None, _san_objs(certnames), None, None)
                 entry = certs.CertStoreEntry(cert, store.default_privatekey, None, [])
-                store.add_cert(entry, *[_name_str(n) for n in names])
+                store.add_cert(entry, *[_name_str(n) for n in names if n not in certnames])
                 custom_ids.add(id(entry))
                 trace.append({"k": "add", "e": intern(entry), "names": [list(n) for n in names]})
             else:
